@@ -365,8 +365,119 @@ def handleHist (c : Case) : Verdict := Id.run do
   return { corr := corr, spec := specWhy.isNone, why := specWhy.getD "", model := (model.take 4000).toString,
            branch := s!"shist.len{opStrs.length / 8 * 8}.throws{min nthrow 3}", nontrivial := opStrs.length > 3 }
 
+/-! ### allocation faults (C19, string level) -/
+
+/-- operations whose allocation sequence the model reproduces exactly (buffers only, no exception objects,
+    no standard-library containers): for these the state after the k-th allocation failed is compared with the model -/
+def faultModelled (r : RawOp) : Bool :=
+  match r.c with
+  | 'N' | 'D' | 'C' | 'M' | 'X' | 'c' | 'm' | 'R' | 'P' | 'U' | 'h' | 'H' => true
+  | 'S' | 'b' | 'B' | 'G' | 'g' => true      -- compared only when the clean run does not throw (see below)
+  | 'a' | 'e' => true
+  | _ => false
+
+/-- a `k<i>=<exc>|<snapshot>|<end>` token -/
+structure FaultObs where
+  exc : String
+  fired : Bool
+  snapS : String
+  snap : Option (List ObsObj)
+  endS : String
+
+def parseFaultTok (tok : String) : FaultObs :=
+  let body := String.intercalate "=" ((tok.splitOn "=").drop 1)
+  match body.splitOn "|" with
+  | [e, s, en] =>
+    let fired := !(e.splitOn ",").contains "notfired"
+    { exc := (e.splitOn ",").headD "", fired, snapS := s, snap := parseSnapshot s, endS := en }
+  | _ => { exc := "?", fired := true, snapS := body, snap := none, endS := "?" }
+
+/-- C19 on one observed fault position: `bad_alloc` reached the caller; nothing but the target changed; the target holds its
+    previous value or is empty (a constructor's target does not exist); every object is well-formed; destroying everything
+    afterwards released every block exactly once -/
+def judgeFault (pre : List ObsObj) (r : RawOp) (fo : FaultObs) : Option String :=
+  match fo.snap with
+  | none => some "unreadable snapshot"
+  | some cur =>
+    if !fo.fired then none else
+    if fo.exc != "bad_alloc" then some s!"the failed allocation did not reach the caller as bad_alloc (observed: {fo.exc})" else
+    (judgeShape cur).orElse fun _ =>
+    let tg := targetsOfRaw r
+    (judgeFrame pre cur tg).orElse fun _ =>
+    (judgeNoNew pre cur []).orElse fun _ =>
+    (tg.findSome? fun t =>
+      match pre.find? (·.id == t), cur.find? (·.id == t) with
+      | some a, some b => if b.units == a.units || b.size == 0 then none else some s!"o{t} holds neither its previous value nor an empty value after bad_alloc"
+      | some _, none => some s!"o{t} no longer exists after bad_alloc"
+      | none, _ => none).orElse fun _ =>
+    if fo.endS != "clean" then some s!"after bad_alloc, destroying every object: {fo.endS}" else none
+
+def handleFault (c : Case) : Verdict := Id.run do
+  let opStrs := ((c.get "ops").splitOn ";").filter (· ≠ "")
+  let obsSteps := (c.obs.filter (·.startsWith "s")).map parseStep
+  let opS := c.get "op"
+  let r := parseRaw opS
+  -- prefix (model follows the observed values of derived objects)
+  let mut st : RunState := { p := Pool.init L }
+  let mut corr := true
+  let mut model := ""
+  let mut specWhy : Option String := none
+  let mut i := 0
+  for pS in opStrs do
+    i := i + 1
+    match obsSteps[i - 1]? with
+    | none => corr := false; if specWhy.isNone then specWhy := some s!"prefix step {i} missing: {(obsString c).take 120}"
+    | some cur =>
+      let (tok, spec, st', _) := stepOne st pS cur i
+      st := st'
+      if specWhy.isNone then specWhy := spec
+      let obsTok := if cur.exc == "" then cur.snapS else s!"!{cur.exc}|{cur.snapS}"
+      if !matchesWild tok obsTok then
+        if corr then model := s!"s{i}={tok}"
+        corr := false
+  let preObs := match (c.obs.find? (·.startsWith "pre=")) with
+    | some t => (parseSnapshot (String.intercalate "=" ((t.splitOn "=").drop 1))).getD []
+    | none => []
+  let ktoks := c.obs.filter fun t => t.startsWith "k" && t.contains '|'
+  let k0 := (ktoks.find? (·.startsWith "k0=")).map parseFaultTok
+  let cleanThrows := match k0 with | some f => f.exc != "ok" | none => true
+  let mut nfired := 0
+  let admissible := precheck st.p r
+  for tok in ktoks do
+    let kS := ((tok.splitOn "=").headD "").drop 1 |>.toString
+    let k := kS.toNat?.getD 0
+    let fo := parseFaultTok tok
+    if k == 0 then
+      if specWhy.isNone && fo.endS != "clean" then specWhy := some s!"clean run of {opS}: {fo.endS}"
+    else
+      if fo.fired then nfired := nfired + 1
+      if specWhy.isNone && admissible then
+        specWhy := (judgeFault preObs r fo).map fun w => s!"{opS} with allocation {k} failing: {w}"
+      -- model correspondence for the operations whose allocation sequence is modelled exactly
+      if corr && admissible && faultModelled r && !cleanThrows && fo.fired then
+        let curStep : ObsStep := { exc := if fo.exc == "ok" then "" else fo.exc, snapS := fo.snapS, snap := fo.snap }
+        match toSOp st.p r curStep with
+        | none => pure ()
+        | some sop =>
+          let pF := { st.p with failAt := some (st.p.allocs + k) }
+          let (excM, p') := match sop.run pF with
+            | .ok _ p' => ("ok", p')
+            | .throw e p' => (excName e, p')
+            | .fault f p' => (s!"FAULT:{faultName f}", p')
+          let (snapS, _) := snapshot p' st.prevPtr
+          let (pEnd, flt) := destroyAll p'
+          let endS := if flt.isSome then s!"FAULT:{faultName flt.get!}" else if leaked pEnd then "leak" else "clean"
+          let m := s!"{excM}|{snapS}|{endS}"
+          let o := s!"{fo.exc}|{fo.snapS}|{fo.endS}"
+          if !matchesWild m o then
+            corr := false
+            model := s!"k{k}={m}"
+  return { corr := corr, spec := specWhy.isNone, why := specWhy.getD "", model := (model.take 4000).toString,
+           branch := s!"sfault.{r.c}.fired{min nfired 4}", nontrivial := nfired > 0 }
+
 def handle (c : Case) : Verdict :=
-  if c.op == "shist" then handleHist c
+  if c.op == "sfault" then handleFault c
+  else if c.op == "shist" then handleHist c
   else { corr := false, why := "no handler for " ++ c.op }
 
 end Driver.Str
